@@ -257,7 +257,13 @@ def _str_escape(s: str) -> str:
     return s
 
 def _bytes_escape(b: bytes) -> str:
-    return repr(b)[2:-1]
+    r = repr(b)
+    s = r[2:-1]
+    if r[1] == '"':
+        # repr() chose double quotes, so it left the simple quotes unescaped,
+        # but the value is going to be presented inside simple quotes.
+        s = s.replace("'", "\\'")
+    return s
 
 class PyvalColorizer:
     """
